@@ -173,3 +173,14 @@ def replay(desc, ENV, build, run_binary):
                 if json.loads(l[5:]).get('prop', 'C02') == desc.get('prop', 'C02'): again = True
             except Exception: again = True
     return (again, out[-1500:].replace(desc['blob'], '<blob>') + p.stderr.decode('utf-8', 'replace')[-1500:])
+
+
+def stream_simple(name, producer_script, harness):
+    """Step factory: nshards pipelines `python3 gen/<producer_script> tier shard n | build/asan/<harness> --tier tier`, no caching."""
+    def step(tier, ENV, build, run_binary):
+        work = ENV['VERIF_WORK']
+        res, fails = run_stream(ENV, ['python3', os.path.join(ROOT, 'gen', producer_script), tier, '{shard}', '{nshards}'], os.path.join(os.path.dirname(work), 'asan', harness), ['--tier', tier, '--sub', name])
+        agg = merge_stream_results(name, res); agg['samples'] = [{'producer': 'gen/' + producer_script}]
+        for f in fails: f['_mode'] = 'asan'; f['_bin'] = harness; f['_replay_py'] = 'checks_py'; f['_differential'] = 'stream'; f['_args'] = ['--tier', tier]
+        return [agg], fails, (1 if fails else 0), ''
+    return step
